@@ -135,6 +135,11 @@ def run(ctx):
     # 1. every case without scratch
     for c in cases:
         run_one(c, 'none', None)
+    # 1b. the refusals (tilt metadata of every kind, shapes beyond the grid) are the same refusals when a scratch buffer is supplied
+    for c in cases:
+        if spec[c['id']]['obs'][-1]['err'] != 'none':
+            g = geoms[c['gi']]
+            run_one(c, 'larger-dirty', np.full((g['Kr'] + 2, g['Kc'] + 1), 1 - 2j, dtype=complex))
     # 2. histories sharing one scratch buffer
     ok_cases = [c for c in cases if spec[c['id']]['obs'][-1]['err'] == 'none']
     nhist = 0
